@@ -653,6 +653,44 @@ theorem vle_history_nonneg (c : Cls K) (hist : List (Rows K × List (VEv K))) (k
   simp only [Option.map_some, Option.some.injEq] at hres
   exact vle_nonneg c r hg hl evs hev r' reg' hres
 
+/-- what call `k` of a history with reactive flashes would be if it were the first call on a fresh object -/
+def HCall.fresh (c : Cls K) : HCall K → Option (Except Err (Rows K × VReg K))
+  | .plain r evs => some (vleCall c r evs)
+  | .reactive _ _ _ => none
+
+/-- **Ordinary calls do not see what a reactive flash left in the object.**  In a history on one VLE object in
+which reactive flashes (excluded from the property) are interleaved, every *ordinary* call behaves exactly
+like a first call on a fresh object with the same flows — for every key set the reactive `_setup` stored and
+every leftover reaction delta `_dmol_vle`, `_dF_mol`. -/
+theorem vle_history_reactive_independent (c : Cls K) (cache : Option VCache) (hc : VCacheOK c cache)
+    (hist : List (HCall K)) : vleHistoryR c cache hist = hist.map (HCall.fresh c) := by
+  induction hist generalizing cache with
+  | nil => rfl
+  | cons h rest ih =>
+    cases h with
+    | plain r evs =>
+      obtain ⟨h1, h2⟩ := vleCallC_eq c cache hc r evs
+      simp only [vleHistoryR, List.map_cons, HCall.fresh, h1, ih _ h2]
+    | reactive nz dmol dF =>
+      have hok : VCacheOK c (vleAfterReactive c nz) := rfl
+      simp only [vleHistoryR, List.map_cons, HCall.fresh, ih _ hok]
+
+/-- **Conservation and placement for every ordinary call that follows reactive flashes** on the same object. -/
+theorem vle_after_reactive_conserves_and_places (c : Cls K) (hdisj : ∀ i, ¬ (i ∈ c.light ∧ i ∈ c.heavy))
+    (hist : List (HCall K)) (k : Nat) (r : Rows K) (evs : List (VEv K)) (r' : Rows K) (reg' : VReg K)
+    (hk : hist[k]? = some (.plain r evs)) (hres : (vleHistoryR c none hist)[k]? = some (some (.ok (r', reg'))))
+    (hg : ∀ i < c.n, 0 ≤ get r.g i) (hl : ∀ i < c.n, 0 ≤ get r.l i) :
+    ((∀ i < c.n, get r'.g i + get r'.l i = get r.g i + get r.l i) ∧ r'.L = r.L ∧ r'.s = r.s)
+    ∧ (∀ i < c.n, i ∉ c.vle → i ∈ c.light → i ∉ c.heavy → get r'.l i = 0 ∧ get r'.g i = get r.g i + get r.l i)
+    ∧ (∀ i < c.n, i ∉ c.vle → i ∈ c.heavy → i ∉ c.light → get r'.g i = 0 ∧ get r'.l i = get r.l i + get r.g i)
+    ∧ ((∀ e ∈ evs, EvOK c (vleSetup c r).2 e) → ∀ i < c.n, 0 ≤ get r'.g i ∧ 0 ≤ get r'.l i) := by
+  rw [vle_history_reactive_independent c none trivial, List.getElem?_map, hk] at hres
+  simp only [Option.map_some, HCall.fresh, Option.some.injEq] at hres
+  exact ⟨vle_conserves c hdisj r evs r' reg' hres,
+         fun i hi hnv h1 h2 => light_all_gas c r hg hl evs r' reg' hres hi h1 h2 hnv,
+         fun i hi hnv h1 h2 => heavy_no_gas c r hg hl evs r' reg' hres hi h1 h2 hnv,
+         fun hev => vle_nonneg c r hg hl evs hev r' reg' hres⟩
+
 /-- What an SLE object remembers stays consistent over any history of `_setup` calls (any flows, any solutes,
 including calls that raise). -/
 theorem sle_history_cache_consistent (c : Cls K) (hist : List (Rows K × Nat)) :
@@ -832,6 +870,15 @@ example : EvOK cEx (vleSetup cEx rEx).2 (.bubbleLimited (1/2) [3/4, 1/4, 0, 0])
 example : (sleSetupC cEx (sleSetupC cEx {} rSle 3).1
       { g := [0, 0, 0, 0], l := [3, 1, 0, 5], L := [0, 0, 0, 0], s := [0, 0, 0, 2] } 3)
     = ({ nz := some [0, 1, 3], idx := [0, 1, 3], pure := false }, .ok ()) := by
+  decide +kernel
+
+/-- a reactive flash (key set {0,1,2,3}, a non-zero leftover delta) between two ordinary calls: the ordinary call
+after it re-uses the stored index and gives what a fresh object gives -/
+example : ((vleHistoryR cEx none
+      [.plain rEx [.solve [1, 1/2, 0, 0], .setFlowsReg], .reactive [0, 1, 2, 3] [1/5, -1/5, 0, 0] 0,
+       .plain rEx [.solve [1, 1/2, 0, 0], .setFlowsReg]]).map fun r =>
+      match r with | some (.ok (r', _)) => some (r'.g, r'.l) | _ => none)
+    = [some ([1, 1/2, 1/2, 0], [1, 3/2, 0, 5/4]), none, some ([1, 1/2, 1/2, 0], [1, 3/2, 0, 5/4])] := by
   decide +kernel
 
 end NonVacuity
